@@ -19,7 +19,7 @@ TEXT = {
     "C09": ("other", "copy=True => modifies only fresh objects proved for the copy funnels; fingerprint-unchanged checked at run time on corpus x functions x dialects (bounded)", "3 C09"),
     "C10": ("other", "normalize_identifier idempotent and case-sensitive identifiers untouched proved for all strategies; qualify postcondition + idempotence bounded", "3 C10"),
     "C11": ("other", "operator kernels only: Kleene AND/OR/NOT, IN, null_if_any, filter_nulls, unmatched-row rule proved against SQL 3VL for all values; joins/set operations/aggregates vs a bag spec on all tiny tables (bounded). Agreement of execute() with an external engine is not claimed", "3 C11"),
-    "C12": ("other", "bounded only: dump/load/json/pickle/copy round trip on every node class x arg kinds and the corpus", "3 C12"),
+    "C12": ("other", "serde._load proved to rebuild a node that carries exactly the payload's type / comments / meta while writing nothing that existed before (the only tier-A part; serde.dump's stack loop could not be brought under contract); dump/load/json/pickle/copy round trip on every node class x arg kinds, the corpus, and trees with marker comments is a bounded run-time contract check", "3 C12, 9.8"),
     "C13": ("other", "tokenizer _advance/_add offset and line/col consistency, raise_error position transfer proved; token order/gap/position relation on enumerated layouts bounded", "3 C13"),
     "C14": ("other", "the whole error-level relation at the funnel (raise_error, validate_expression, check_errors, _try_parse, concat_messages, Generator.unsupported/generate tail) proved for all states, plus mechanical frame scans that error_level / unsupported_level are read nowhere else; four-run relation end to end bounded", "3 C14"),
     "C15": ("other", "reused Parser/Tokenizer == fresh one by mechanical frame scans comparing reset() with __init__ (syntactic) and a proved fresh-state assertion at TokenizerCore.tokenize; generator per-call frame scan; MappingSchema.find answers independent of earlier strict / lenient questions proved; hash-seed / call-order relation in subprocesses bounded", "3 C15"),
